@@ -28,6 +28,19 @@ def representations(bse, b, rng):
                 sh['exponents'] = [sh['exponents'][i] for i in perm]
                 sh['coefficients'] = [[c[i] for i in perm] for c in sh['coefficients']]
     reps.append(('spdf_split_shuffled', s))
+    # every contraction multiplied by a constant of its own: the same function space (a contracted function is normalised by whoever
+    # uses it; for a lone primitive the coefficient carries no information at all)
+    from decimal import Decimal
+    from fractions import Fraction as _F
+    sc = copy.deepcopy(b)
+    for el in sc['elements'].values():
+        for sh in el.get('electron_shells', []):
+            newc = []
+            for col in sh['coefficients']:
+                f = rng.choice([_F(1, 2), _F(-3), _F(1, 4), _F(2), _F(-1)])
+                newc.append([genbasis.fmt_num(rng, abs(_F(Decimal(x.strip())) * f), negative=(_F(Decimal(x.strip())) * f < 0)) for x in col])
+            sh['coefficients'] = newc
+    reps.append(('contractions_rescaled', sc))
     # the order of the elements in the dictionary is part of the representation too (readers keep file order)
     if len(b['elements']) > 1:
         r = copy.deepcopy(b)
@@ -233,7 +246,8 @@ def run(ctx):
     items = [('%s/%s' % p, p, '%s-%d' % (p[0], ctx.seed)) for p in sample_pairs(ctx, ctx.n(26, 10 ** 6), orbital)]
     thr = [2, 3, 18, 19, 20, 21, 54, 55, 56, 57]
     for i in range(ctx.n(60, 1000)):
-        g = genbasis.gen_basis(ctx.rng, nel=3, kinds=['general', 'plain', 'pople', 'shared'])
+        # now and then elements with momenta up to l = 8..11 (the tables of the method end at l = 7 and are clamped beyond)
+        g = genbasis.gen_basis(ctx.rng, nel=3, kinds=(['highl', 'plain'] if i % 10 == 9 else ['general', 'plain', 'pople', 'shared']))
         g = relabel(g, sorted(ctx.rng.sample(thr, 3)))
         items.append(('gen%d' % i, g, 'g%d-%d' % (i, ctx.seed)))
     reqs = []
